@@ -58,6 +58,9 @@ type Interp struct {
 	// WrapEq: equalities of integers wider than 4 bits become one named atom
 	// (with its definition kept), so residual formulas stay small.
 	WrapEq bool
+	// MapLen: assumed number of entries of an opaque map that is ranged over
+	// (-1: unknown, ranging fails).
+	MapLen int
 	// TermEq: equalities of wide integers become eq(term, term) atoms, so the
 	// constants compared against stay visible to the rules.
 	TermEq bool
@@ -71,7 +74,7 @@ type Interp struct {
 }
 
 func newInterp(P *Program) *Interp {
-	in := &Interp{P: P, lazy: map[string]*Obj{}, MaxDepth: 8, MaxSteps: 400000, globals: map[*ssa.Global]*Obj{}}
+	in := &Interp{P: P, lazy: map[string]*Obj{}, MaxDepth: 8, MaxSteps: 400000, globals: map[*ssa.Global]*Obj{}, MapLen: -1}
 	in.OpaqueFn = defaultOpaque
 	return in
 }
@@ -437,7 +440,10 @@ func (f *frame) joinAt(b *ssa.BasicBlock, preds []*ssa.BasicBlock, isHeaderIter 
 		var v Val
 		for i := len(preds) - 1; i >= 0; i-- {
 			pi := predIndex(b, preds[i])
+			saved := f.cur
+			f.cur = preds[i] // facts of the predecessor hold along its edge
 			ev := f.val(phi.Edges[pi])
+			f.cur = saved
 			if v == nil {
 				v = ev
 			} else {
@@ -774,6 +780,15 @@ func (in *Interp) muxState(c Bit, t, f *State) *State {
 	}
 	for o := range t.born {
 		out.born[o] = true
+	}
+	for o, es := range t.ment {
+		if len(es) != len(f.ment[o]) {
+			// entries added on one side only: keep them, they carry their own
+			// condition
+			if len(es) > len(f.ment[o]) {
+				out.ment[o] = append([]mapEntry(nil), es...)
+			}
+		}
 	}
 	for o := range objs {
 		if t.born[o] != f.born[o] {
